@@ -1,0 +1,18 @@
+//go:build verif
+
+package directive
+
+import "github.com/jsightapi/jsight-schema-go-library/bytes"
+
+func VerifUnescapeParameter(b []byte) []byte { return unescapeParameter(bytes.Bytes(b)) }
+
+// VerifKeywordBegin returns the byte index of the directive's keyword.
+func (d Directive) VerifKeywordBegin() uint { return uint(d.keywordCoords.begin) }
+
+// VerifFileName returns the name of the file the directive was read from.
+func (d Directive) VerifFileName() string {
+	if d.keywordCoords.file == nil {
+		return ""
+	}
+	return d.keywordCoords.file.Name()
+}
